@@ -100,10 +100,21 @@ fn jstr(out: &mut String, s: &str) {
 }
 
 /// `{"id":..,"items":[[name,kind,value],..],"sg":[[k,v],..],"silent":[..]}`
-pub fn record_line(id: &str, entry: &impl Entry) -> String {
+/// (the generic part is kept minimal: the generated programs instantiate it once per root type)
+pub fn record_line<E: Entry>(id: &str, entry: &E) -> String {
     let mut rec = Rec::default();
     entry.write(&mut rec);
-    let sg: Vec<(String, String)> = entry.sample_group().map(|(k, v)| (k.to_string(), v.to_string())).collect();
+    let sg = collect_pairs(&mut entry.sample_group());
+    render(id, &rec, &sg)
+}
+
+#[inline(never)]
+fn collect_pairs(it: &mut dyn Iterator<Item = (Cow<'static, str>, Cow<'static, str>)>) -> Vec<(String, String)> {
+    it.map(|(k, v)| (k.to_string(), v.to_string())).collect()
+}
+
+#[inline(never)]
+fn render(id: &str, rec: &Rec, sg: &[(String, String)]) -> String {
     let mut s = String::with_capacity(128 + rec.items.len() * 48);
     s.push_str("{\"id\":");
     jstr(&mut s, id);
